@@ -54,6 +54,7 @@ func cmdCheck(args []string) {
 		os.Exit(2)
 	}
 	pid := fs.Arg(0)
+	os.Setenv("VERIF_TIER", *tier) // the bounded stand-ins widen their bounds in the thorough tier
 	verif := envOr("VERIF_DIR", "/verif")
 	repo := envOr("VERIF_REPO", "/repo")
 	seed, _ := strconv.Atoi(envOr("VERIF_SEED", "0"))
@@ -400,7 +401,27 @@ var staticAssumptions = []string{
 	"goroutines/channels are outside the supported subset (functions using them are refused)",
 }
 
-var undecidedClauses = map[string][]string{}
+var undecidedClauses = map[string][]string{
+	"C01": {"whole-history composition of the per-function determinism results", "row order returned by the storage leaves (ORDER BY clauses are SQL text)"},
+	"C02": {"behaviour at crash points (SQLite atomic commit and durability are trusted)"},
+	"C03": {"equivalence of the in-memory funds simulation of applyTransactionBatch with the database debits of recordBatch in the bank era (F8)"},
+	"C04": {"sum of supply deltas over a whole chain", "NullifyMintedTokens / NullifyBurnAddress effects (assumed contracts)"},
+	"C05": {"cryptographic unforgeability; fat103.Validate", "replay key vs. RCD-e recovery byte (F9)"},
+	"C07": {"the averages function itself (bounded under C09)"},
+	"C08": {"termination", "a healthy environment implies SyncBlock returns nil for the whole block (UNIQUE-key wedging, F6)"},
+	"C09": {"GetPegNetRateAverages beyond the stated bound"},
+	"C10": {"eventual recovery (liveness)", "completeness of row iteration in the storage leaves (rows.Err, F14)"},
+	"C11": {"grading algorithms of the pegnet modules", "binding of the SPR staker id to the signing key (F10)"},
+	"C12": {"numeric value of the float64 tolerance computation (float operations are uninterpreted in GetAssetRates/GetAssetRatesV0)"},
+	"C13": {"completeness: every other well-formed conversion is executed"},
+	"C14": {"accumulation of the per-asset Convert results into one stake per address in SnapshotPayouts (nested-loop invariant; only the inputs of every Convert call are pinned)"},
+	"C15": {"NullifyMintedTokens / NullifyBurnAddress (assumed contracts; F16)"},
+	"C16": {"SyncBank (assumed contract)", "recordPegnetRequests beyond the stated bound"},
+	"C17": {"replaying recorded history reproduces the balances (whole history)", "paging exactly-once (SQL LIMIT/OFFSET)"},
+	"C18": {"interleavings and data races as such (argument: empty frame on shared memory)", "the unsynchronised read of Sync.Synced", "SQLite isolation between pool connections and the block transaction", "the closure returned by getTransactions"},
+	"C19": {"NewPegnetd glue"},
+	"C20": {"acceptance of exactly the canonical JSON language and the encode/decode round trip (encoding/json, jsonlen)"},
+}
 
 // properties whose deciding function is outside the verified subset: the contract of that function is stated and used by the
 // verified callers, the function itself is only checked up to a stated bound.  Their evidence level is "other", never "proof".
